@@ -277,7 +277,7 @@ func c12One(env *Env, ch *wvlib.Child, m *wvlib.Model, c *C12Case) {
 	nt, c2 := env.Scratch.Tok(nw)
 	defer c1()
 	defer c2()
-	ans, crashed, diag := ch.Ask(fmt.Sprintf("diff %d %d %d %s %s", c.Partitions, c.Conc, c.Split, ot, nt), 120*time.Second)
+	ans, crashed, diag := ch.Ask(fmt.Sprintf("diff %d %d %d %s %s", c.Partitions, c.Conc, c.Split, ot, nt), wvlib.Watchdog(60*time.Second))
 	impl := ans
 	if crashed {
 		first := diag
@@ -286,10 +286,16 @@ func c12One(env *Env, ch *wvlib.Child, m *wvlib.Model, c *C12Case) {
 		}
 		impl = "KILLED " + first
 		cls := "process-killed"
-		if len(old) == 0 {
-			cls = "process-killed:empty-old"
+		what := "the differ took the whole process down (panic in a goroutine, not recoverable): "
+		if strings.Contains(diag, "hang") {
+			wvlib.NoteHang()
+			cls = "differ-does-not-terminate"
+			what = "the differ did not produce its series: "
 		}
-		env.R.Violate(cls, "the differ took the whole process down (panic in a goroutine, not recoverable): "+trunc(diag, 600), c)
+		if len(old) == 0 {
+			cls += ":empty-old"
+		}
+		env.R.Violate(cls, what+trunc(diag, 600), c)
 	} else if strings.HasPrefix(ans, "PANIC") {
 		cls := "differ-panic"
 		if strings.Contains(ans, "divide by zero") {
